@@ -1297,6 +1297,10 @@ def sum(x, /, *, axis=None, dtype=None, keepdims=False):  # noqa: A001
     x = asarray(x)
     if x.dt.kind != "f" and x.a.dtype != object:
         return Array(_np.asarray(_np.sum(x.a.astype(_np.int64), axis=axis, keepdims=keepdims)), int64)
+    if x.dt.kind == "b":
+        # a count: integer-valued term in the Real sort, whatever the float sort is
+        cells = _map(lambda b: z3.RealVal(1 if b else 0) if isinstance(b, (builtins.bool, _np.bool_)) else z3.If(b, z3.RealVal(1), z3.RealVal(0)), x.a)
+        return Array(_reduce(Array(cells, int64), axis, keepdims, lambda cs: simp(z3.Sum(cs)) if cs else z3.RealVal(0)), int64)
     dt = _fdt(x) if x.dt.kind == "f" else int64
     return Array(_reduce(Array(_fcells(x), dt), axis, keepdims, _sum_cells), dt)
 
